@@ -120,6 +120,7 @@ func C01(ctx *Ctx) {
 	R.Rule("authoritative-copy", "the non-authoritative copy of A, X or Y never flows into another CPU field, a bus access or a branch condition")
 	R.Rule("effect-signature", "in E=0 cells without pending interrupt: fields outside the mnemonic's may-change set are unchanged; PC/SP deltas and memory writes match the reference signature")
 	R.Rule("flags01", "every flag byte is 0 or 1 at the end of every cell (given it was at the start)")
+	R.Rule("value", "in E=0 cells without pending interrupt the post-state equals the one the WDC model prescribes, as abstract terms over the entry state: authoritative register copies, SP, D, DBR, K, PC, every status flag (as a boolean function of canonical propositions), every byte written to operand or stack and the stack bytes pulled; binary arithmetic only (decimal mode is compared separately)")
 	R.Rule("operand-access", "in E=0 cells without pending interrupt the addresses read and written besides instruction bytes and stack traffic are exactly the terms the WDC addressing-mode definitions prescribe (bank-0 wrap of direct-page / stack-relative / (abs) / [abs] pointers, program-bank wrap of (abs,X) pointers, 24-bit effective addresses with the index added across bank boundaries, second data byte at EA+1 mod 2^24)")
 	isa, err := loadISA(ctx)
 	if err != nil {
@@ -425,6 +426,7 @@ func C01(ctx *Ctx) {
 		emit("effect-signature", effBad, rs, fmt.Sprintf("%d native-mode cells match the reference signatures", nEff))
 		emit("flags01", flagBad, rs, "all flag bytes stay in {0,1}")
 		checkOperandAccess(ctx, isa, rs, sw.Results[rel])
+		checkValues(ctx, isa, m, rs, sw.Results[rel])
 	}
 	R.Floor("effect-cells", 2*1024)
 	R.Analysed["cells"] = "2 packages x 256 opcodes x M,X,E x 3 interrupt states"
